@@ -50,7 +50,8 @@ def case_st(draw):
     scheme = draw(st.sampled_from(["forces", "energy"]))
     shape = "scalar" if scheme == "energy" else draw(st.sampled_from(["scalar", "array"]))
     return {"min": lo, "max": hi, "ref": ref, "r1": r1, "r2": r2, "n": n, "mode": mode, "scheme": scheme, "update": draw(st.sampled_from(["tanh", "exp"])),
-            "shape": shape, "mu": draw(fl(0.1, 5.0)), "sign": draw(st.sampled_from([-1.0, 1.0]))}
+            "shape": shape, "mu": draw(fl(0.1, 5.0)), "sign": draw(st.sampled_from([-1.0, 1.0])),
+            "retune_ref": draw(st.sampled_from([None, 0.2, 5.0]))}
 
 
 def variance(case, r):
@@ -82,6 +83,11 @@ def delta_for(case, mc, atoms, v):
             mc.update_delta()
         elif mode == "nodata":
             atoms.calc = types.SimpleNamespace(results={})
+            if case.get("retune_ref"):
+                # a first fallback call with another reference variance, then the documented attribute is re-tuned
+                mc.reference_variance = case["ref"] * case["retune_ref"]
+                mc.update_delta()
+                mc.reference_variance = case["ref"]
             mc.update_delta()
         else:
             if case["scheme"] == "energy":
